@@ -163,6 +163,9 @@ fn check_miri(case: &Value, obs: &mut Obs) {
         }
       }
     }
+    if m.len() <= 6 {
+      super::c16::bound_kinds(&r, &m, "rope", obs);
+    }
     let _ = r.lines().map(|l| l.len()).sum::<usize>();
     let ci = r.char_indices().count();
     if ci != m.chars().count() {
